@@ -57,6 +57,10 @@ def impl(op, a):
     return _val(guarded(f))
 
 
+_impl_plain = impl
+impl = lib.with_bytearray_variant(_impl_plain, ['frame_from_bytes'])
+
+
 def observable(k, c):
     """c = canonical frame list"""
     dest, src, payload, seg, fin, ssn, rsn = c
@@ -194,10 +198,29 @@ def classify_accept(k, orig_obs, got):
 CLASSIFIERS = {}
 
 
+def reuse_search(ctx, fr, label_prefix=""):
+    """a frame object that was serialised once (its check sequences read) and whose fields are then changed serialises like a
+    freshly built frame"""
+    by_kind = {}
+    for a in fr:
+        by_kind.setdefault(a[0], []).append(a)
+    for k, lst in by_kind.items():
+        picks = lst[::max(1, len(lst) // ctx.scale(60, 600))]
+        for a1, a2 in zip(picks, picks[1:] + picks[:1]):
+            res = lib.encode_after_field_change(build, a1, a2, touch=lambda f: (f.hcs, f.fcs))
+            if res is None:
+                continue
+            ctx.tried("serialise_after_field_change", key=lib.v_text(a1)[:100] + lib.v_text(a2)[:100])
+            if lib.v_text(res[0]) != lib.v_text(res[1]):
+                ctx.fail(label_prefix + "frame_stale_after_field_change", {"first": lib.v_text(a1)[:3000], "then": lib.v_text(a2)[:3000]},
+                         lib.v_text(res[1])[:200], lib.v_text(res[0])[:200])
+
+
 def run(ctx):
     r = lib.rng("C09f")
     fr = gen_frames(ctx)
     ctx.corr([("frame_make_to_bytes", a) for a in fr], impl, "to_bytes", decisive=lambda op, a: in_domain(a))
+    reuse_search(ctx, fr)
     built = [(a, impl("frame_make_to_bytes", a)) for a in fr]
     parse_cases = []
     search_items = []
@@ -278,6 +301,10 @@ def hits_address(f, lo, hi):
 def replay(ctx, rp):
     """re-run the recorded frame (and fault, if any) against the current implementation"""
     c = rp["case"]
+    if "then" in c:
+        res = lib.encode_after_field_change(build, lib.v_parse(c["first"]), lib.v_parse(c["then"]), touch=lambda f: (f.hcs, f.fcs))
+        print("re-used object:", lib.v_text(res[0])[:200], "\nfresh object  :", lib.v_text(res[1])[:200])
+        return lib.v_text(res[0]) != lib.v_text(res[1])
     a = lib.v_parse(c["frame_v"]) if "frame_v" in c else c["frame"]
     k = a[0]
     b = impl("frame_make_to_bytes", a)
